@@ -117,4 +117,34 @@ theorem pair_one_tap [CharZero K] (Ω : ℕ → K) (sc : Params → K) (s : Pair
       · rw [hmod, heq]; exact key
 
 end field
+section robustness
+variable {K : Type} [Field K]
+
+/-- scaling every tap by `c` scales the whole frequency response by `c` -/
+theorem Hs_scale (ω c : K) (delays : List ℕ) (gains : List K) (k : ℕ) :
+    Hs ω delays (gains.map (fun g => c * g)) k = c * Hs ω delays gains k := by
+  unfold Hs
+  rw [List.zip_map_right, List.map_map]
+  induction delays.zip gains with
+  | nil => simp
+  | cons dg t ih =>
+    simp only [List.map_cons, List.sum_cons, Function.comp, Prod.map_snd, Prod.map_fst, id] at ih ⊢
+    rw [ih]; ring
+
+section
+variable {α : Type} [Zero α] [Add α] [Mul α] [Div α] [NatCast α]
+/-- an operation that raises leaves the pair exactly as it was -/
+theorem stepPair_error_unchanged (F Finv : ℕ → List α → List α) (sc : Params → α) (s : Pair)
+    (op : PairOp α) (e : PyErr) (h : (stepPair F Finv sc s op).2 = .error e) :
+    (stepPair F Finv sc s op).1 = s := by
+  cases op with
+  | setParams f c u =>
+    cases hs : setParameters f c u with
+    | error e' => simp [stepPair, hs]
+    | ok p => simp [stepPair, hs] at h
+  | modulate x => rfl
+  | demodulate y => rfl
+  | equalize d ir => rfl
+end
+end robustness
 end PyPhysim.C02
